@@ -531,10 +531,23 @@ class _Frame:
 
     def s_For(self, st):
         it = self.ev(st.iter)
-        try:
-            seq = list(it)
-        except TypeError:
-            raise self.bad("for over a non-iterable value", st)
+        if type(it) is list:
+            # a Python list is iterated LIVE (by position): removing / inserting in the body shifts what the loop sees next,
+            # exactly as in the program
+            def live(lst):
+                i = 0
+                while i < len(lst):
+                    yield lst[i]
+                    i += 1
+                    if i > 1_000_000:
+                        raise self.bad("for loop bound exceeded", st)
+
+            seq = live(it)
+        else:
+            try:
+                seq = list(it)
+            except TypeError:
+                raise self.bad("for over a non-iterable value", st)
         for x in seq:
             self.assign(st.target, x)
             try:
